@@ -1098,3 +1098,5 @@ def check(ctx):
     check_override(ctx)
     check_taint(ctx)
     check_validators(ctx)
+    from .links import check_adopted
+    check_adopted(ctx, schema_rule="adopt.schema-checked")
